@@ -315,7 +315,8 @@ impl PathSliceList {
                             (0..spread_args.len()).map(|i| format!("_{}", i)).collect();
                         write!(ret, "(({})=>", params.join(","))?;
                         for p in params.iter() {
-                            write!(ret, "{}===true||", p)?;
+                            // (`Z` also answers `true` for the tree of a spliced array, which has no own keys)
+                            write!(ret, "Z({})===true||", p)?;
                         }
                         write!(ret, "{})({})", combined, spread_args.join(","))?;
                     }
